@@ -24,7 +24,7 @@ pub fn bases(all: bool) -> Vec<Base> {
     for carrier in [Carrier::Header, Carrier::Query] {
         for opt in 0..3u8 {
             for token in [false, true] {
-                for shape in 0..5u8 {
+                for shape in 0..6u8 {
                     let quick_pick = matches!(
                         (carrier, opt, token, shape),
                         (Carrier::Header, 0, false, 1)
@@ -38,6 +38,7 @@ pub fn bases(all: bool) -> Vec<Base> {
                             | (Carrier::Header, 1, false, 4)
                             | (Carrier::Query, 1, false, 4)
                             | (Carrier::Header, 0, false, 4)
+                            | (Carrier::Header, 0, false, 5)
                     );
                     if !all && !quick_pick {
                         continue;
@@ -55,7 +56,8 @@ pub fn bases(all: bool) -> Vec<Base> {
                             p.segs = vec![b"docs".to_vec(), b"a b".to_vec()];
                             p.wire_path = Some("/docs/a%20b".into());
                             p.url_params = vec![(b"k".to_vec(), b"v 1".to_vec()), (b"a".to_vec(), b"".to_vec())];
-                            p.headers.push(("X-Meta".into(), b"m  v".to_vec()));
+                            // a signed value with bytes that are not UTF-8 (a Latin-1 name) and a valid two-byte sequence
+                            p.headers.push(("X-Meta".into(), b"m  v Ren\xe9 \xc3\xbc \xef\xbf\xbd?".to_vec()));
                             p.headers.push(("X-Unsigned".into(), b"free".to_vec()));
                             p.signed.push("x-meta".into());
                         }
@@ -65,6 +67,12 @@ pub fn bases(all: bool) -> Vec<Base> {
                             p.body = b"{\"k\":1}\x00\xff".to_vec();
                             p.headers.push(("Content-Type".into(), b"application/json".to_vec()));
                             p.signed.push("content-type".into());
+                        }
+                        5 => {
+                            // a signed value that is valid UTF-8 and contains the replacement character: what a
+                            // lossy decoding of other byte strings would also produce
+                            p.headers.push(("X-Amz-Meta-Owner".into(), b"Andr\xef\xbf\xbd \xef\xbf\xbd\xef\xbf\xbd".to_vec()));
+                            p.signed.push("x-amz-meta-owner".into());
                         }
                         4 => {
                             // what S3-style clients send: the payload digest in a (signed) header
@@ -191,7 +199,7 @@ pub fn mutants(b: &Base, uri_bytes: &[u8], reduced: bool) -> Vec<Mutant> {
     // headers: every position x {space, visible, 0xE9, tab, digit}; insert; delete; add / remove / swap values
     for (hi, (hn, hv)) in w.headers.iter().enumerate() {
         for pos in 0..hv.len() {
-            for c in [b' ', b'x', 0xE9, b'\t', b'0', b',', b';', b'='] {
+            for c in [b' ', b'x', 0xE9, b'\t', b'0', b',', b';', b'=', 0xE8, 0xA0, 0xC3] {
                 if hv[pos] != c {
                     let mut x = w.clone();
                     x.headers[hi].1[pos] = c;
@@ -698,7 +706,7 @@ pub fn run(ctx: &Ctx) -> Report {
     Report {
         stats: st,
         rule: format!(
-            "{} validly signed base requests (carrier x options x token x shape, one shape carrying x-amz-content-sha256 / Content-Length / Content-MD5 as S3 clients do), each accepted by implementation and reference; for each, every single-component mutation: 13 methods; every URI position x every byte http admits ({} values) + 7 insertions + deletion per position; every header (signed, unsigned, Authorization, date, token) position x 8 bytes + insertion + deletion, header removed/added/duplicated/renamed; every bit of every body byte, truncations, appends; old signature transplanted onto requests re-signed with a changed instant (10 deltas, 5 renderings), date text, 12 scope near-misses, 5 access keys, signed-list drops/additions, token changes; provider key: all 256 single-bit flips, 5 off-by-one derivations, another secret; signature: every digit x 15 other values, upper case, every truncation, extensions, all hex strings of length <= 2{}. Finally the genuine request, a forged one under its signature (method / path / body changed) and the genuine one again are validated as two (thorough: three) futures multiplexed on one thread against a provider that is Pending first, in every order of polls. Each mutant is validated right after the genuine request was accepted on the same thread (so a remembered success cannot vouch for it). Oracle: the implementation may return Ok only if the reference verifier, run on the request as received with the key the provider handed out, accepts. states = distinct reference strings-to-sign (+ refusal stage); non-trivial = distinct (mutated request, provider)",
+            "{} validly signed base requests (carrier x options x token x shape, one shape carrying x-amz-content-sha256 / Content-Length / Content-MD5 as S3 clients do), each accepted by implementation and reference; for each, every single-component mutation: 13 methods; every URI position x every byte http admits ({} values) + 7 insertions + deletion per position; every header (signed — one value holds Latin-1 bytes, a UTF-8 sequence and the replacement character U+FFFD; another is valid UTF-8 made of replacement characters only —, unsigned, Authorization, date, token) position x 11 bytes (incl. 0xE8, 0xE9, 0xA0, 0xC3) + insertion + deletion, header removed/added/duplicated/renamed; every bit of every body byte, truncations, appends; old signature transplanted onto requests re-signed with a changed instant (10 deltas, 5 renderings), date text, 12 scope near-misses, 5 access keys, signed-list drops/additions, token changes; provider key: all 256 single-bit flips, 5 off-by-one derivations, another secret; signature: every digit x 15 other values, upper case, every truncation, extensions, all hex strings of length <= 2{}. Finally the genuine request, a forged one under its signature (method / path / body changed) and the genuine one again are validated as two (thorough: three) futures multiplexed on one thread against a provider that is Pending first, in every order of polls. Each mutant is validated right after the genuine request was accepted on the same thread (so a remembered success cannot vouch for it). Oracle: the implementation may return Ok only if the reference verifier, run on the request as received with the key the provider handed out, accepts. states = distinct reference strings-to-sign (+ refusal stage); non-trivial = distinct (mutated request, provider)",
             bs.len(), uri_bytes.len(),
             if thorough { "; plus all pairs over ~600 strided mutation sites on four bases" } else { "" }
         ),
